@@ -58,6 +58,21 @@ func statCases(r *eng.Rand, thorough bool) (out []eng.Case) {
 			}
 			add(rep*10+i, ringCfg{LogN: logN, Moduli: q}, distCfg{Kind: "uniform", Tag: fmt.Sprintf("bits%v", b)})
 		}
+		if rep == 0 {
+			// uniform: every modulus size once (the rejection sampler's word size and mask depend on the bit
+			// length of the modulus: 8 / 16 / 32 / 33 / 48 ... bits are where such code changes path)
+			for lo := 14; lo <= 61; lo += 6 {
+				var b []int
+				for x := lo; x < lo+6 && x <= 61; x++ {
+					b = append(b, x)
+				}
+				q, _ := gen.Chain(r, uint64(2)<<10, b, nil)
+				if q == nil {
+					continue
+				}
+				add(900+lo, ringCfg{LogN: 10, Moduli: q}, distCfg{Kind: "uniform", Tag: fmt.Sprintf("allsizes%v", b)})
+			}
+		}
 		for gi, g := range gaussCfgs {
 			if g.tag == "s3.2-b19" || g.tag == "s3.2-b19.5" {
 				continue
